@@ -100,7 +100,15 @@ func determVariants(cfg engineCfg, src string, env map[string]*V, g *RNG) []dete
 		return cfg.oneResult(out, err, false)
 	}
 	e0 := cfg.newEngine()
-	tpl0, perr := cfg.parse(e0, src)
+	var tpl0 *liquid.Template
+	var perr liquid.SourceError
+	if res, _ := protect(func() string { tpl0, perr = cfg.parse(e0, src); return "" }); res == "panic" {
+		// the parse panics (C01's matter); determinism of that: every parse must panic
+		add("parse#1", func() string { return "panic" })
+		add("parse#2", func() string { cfg.parse(e0, src); return "no panic" })
+		add("fresh-engine#1", func() string { cfg.parse(cfg.newEngine(), src); return "no panic" })
+		return vs
+	}
 	if perr != nil {
 		add("parse#1", func() string { return cfg.oneResult(nil, perr, true) })
 		add("parse#2", func() string { _, err := cfg.parse(e0, src); return cfg.oneResult(nil, err, true) })
@@ -136,7 +144,8 @@ func determVariants(cfg engineCfg, src string, env map[string]*V, g *RNG) []dete
 	add("fresh-engine#1", func() string { return render(cfg.newEngine(), envs[3]) })
 	add("fresh-engine#2", func() string { return render(cfg.newEngine(), envs[0]) })
 	e3 := cfg.newEngine()
-	tpl3, _ := cfg.parse(e3, src)
+	var tpl3 *liquid.Template
+	protect(func() string { tpl3, _ = cfg.parse(e3, src); return "" })
 	if tpl3 != nil {
 		add("entry:Render", func() string { out, err := tpl3.Render(envs[1]); return cfg.oneResult(out, err, false) })
 		add("entry:RenderString", func() string {
